@@ -72,7 +72,7 @@ pub fn expect_no_byte_alloc(d: &mut Driver, op: &str, ev: &Events, rname: &str) 
 
 // ------------------------------------------------------------------ constructors
 
-pub const N_CTORS: usize = 16;
+pub const N_CTORS: usize = 18;
 
 pub fn construct(d: &mut Driver, ch: &mut dyn Chooser, which: usize) {
     let id = d.fresh_id();
@@ -204,6 +204,24 @@ pub fn construct(d: &mut Driver, ch: &mut dyn Chooser, which: usize) {
             } else if let Some((b, _)) = run(d, "BytesMut::from_iter", move || m2.iter().collect::<BytesMut>()) {
                 d.log(format!("BytesMut::from_iter len={len}"));
                 d.add(Val::M(b), m, Origin::Heap);
+            }
+        }
+        15 => {
+            // the small From / Default conversions
+            let k = ch.choose(5);
+            let txt: &'static str = STATIC_TEXT;
+            let off = ch.choose(8);
+            let r = match k {
+                0 => run(d, "Bytes::default", Bytes::default).map(|(b, _)| (Val::B(b), Vec::new(), Origin::Static)),
+                1 => run(d, "From<&'static [u8]>", || Bytes::from(&STATIC_DATA[off..off + 9])).map(|(b, _)| (Val::B(b), STATIC_DATA[off..off + 9].to_vec(), Origin::Static)),
+                2 => run(d, "From<&'static str>", || Bytes::from(&txt[off..])).map(|(b, _)| (Val::B(b), txt.as_bytes()[off..].to_vec(), Origin::Static)),
+                3 => run(d, "BytesMut::default", BytesMut::default).map(|(b, _)| (Val::M(b), Vec::new(), Origin::Heap)),
+                _ => run(d, "BytesMut::from(&str)", || BytesMut::from(&txt[off..])).map(|(b, _)| (Val::M(b), txt.as_bytes()[off..].to_vec(), Origin::Heap)),
+            };
+            if let Some((v, m, o)) = r {
+                d.log(format!("small conversion {k}"));
+                d.cell(format!("ctor|small|{k}"));
+                d.add(v, m, o);
             }
         }
         _ => {
